@@ -343,7 +343,9 @@ static void reg_putln(int h, char *s)
 		char *end = old;
 		for (i = 1; end != NULL && i < xhist; i++)
 			end = strchr(end == old ? end : end + 1, '\n');
-		if (end != NULL)
+		if (xhist == 1)
+			old[0] = '\0';		/* only the new line is kept */
+		else if (end != NULL)
 			end[1] = '\0';
 	}
 	/* add the new line */
